@@ -145,12 +145,20 @@ func Reach(id string) {}
 // Thorough reports whether the thorough tier is running.
 func Thorough() bool { return os.Getenv("VERIF_TIER") == "thorough" }
 
+// Native reports whether the harness runs natively (replay) rather than under the symbolic executor.
+func Native() bool { return true }
+
+// Redirect makes the symbolic executor call fn wherever the named function is called (used to
+// shrink a production constant, e.g. the truncation depth; the bound is then part of the claim).
+// Natively it does nothing: replays run the unmodified code and pad their inputs instead.
+func Redirect(target string, fn any) {}
+
 // Engine directives (no-ops natively).
 func ExploreSchedules(preemptions int) {}
 func CheckLeaks(on bool)               {}
 func PermuteMaps(maxEntries int)       {}
 func TrackRaces(on bool)               {}
-func Trace(msg string)                 {}
+func Trace(msg string)                 { fmt.Println("VH-TRACE " + msg) }
 func SyncPoint()                       {}
 
 // RunHarness runs fn natively, reporting the outcome in the format bin/check parses.
